@@ -4,7 +4,7 @@
    resumes are inputs, so every theorem below holds for every pattern of stalls, accumulating or
    not.  Tie: harness/belt.py replays every run of the real conveyors on the extracted model. *)
 From Coq Require Import List ZArith Bool Arith.
-From FV Require TBelt TBeltProofs TBeltOrder.
+From FV Require TBelt TBeltProofs TBeltOrder SrcFragments TieBelt.
 Import ListNotations.
 Open Scope Z_scope.
 
@@ -86,3 +86,12 @@ Example C12_uniform_witness :
   option_map (fun b => TBelt.arrived b) (TBeltOrder.urun (TBelt.binit false 3 4 12 false) C12_uops) =
   Some [(1%nat, 4, 21, 5); (0%nat, 0, 17, 5)].
 Proof. vm_compute. reflexivity. Qed.
+
+(* tie B: the admission test of both belt stores, REGENERATED from /repo's sources on every run, is the
+   test the model (and every theorem above) uses *)
+Theorem C12_admission_test_regenerated :
+  forall b noacc one, TBelt.gate b noacc one =
+    if TBelt.slotted b then SrcFragments.SlotBeltStore_gate (TieBelt.glens_of b noacc one)
+    else SrcFragments.ContBeltStore_gate (TieBelt.glens_of b noacc one).
+Proof. exact TieBelt.gate_regenerated. Qed.
+Print Assumptions C12_admission_test_regenerated.
